@@ -21,7 +21,9 @@ type opGen struct {
 
 var attrNames = []string{"a", "b", "name", "count", "x-y", "for", "if", "in", "enabled", "k1", "null", "true", "list", "cfg", "_u", "A1", "été",
 	// names that are proper prefixes / extensions of one another
-	"ab", "a1", "names", "name2", "count_max", "for_", "enabled_x", "k", "k10", "nu", "li", "x"}
+	"ab", "a1", "names", "name2", "count_max", "for_", "enabled_x", "k", "k10", "nu", "li", "x",
+	// names that are canonically equivalent but differ in bytes (NFC / NFD): distinct attributes for the parser
+	"caf\u00e9", "cafe\u0301", "e\u0301te\u0301", "\u00c5ngstrom", "A\u030angstrom", "\u212bngstrom"}
 var blockTypes = []string{"block", "resource", "service", "b", "dynamic", "x-y", "for", "null", "été"}
 var labelPool = []string{"a", "b", "web", "x-y", "with space", "q\"uote", "100%", "a$b", "a$${b}", "é", "back\\slash", "", "for", "${", "%{", "n\nl", "tab\t", "日本", "𝄞", "\u0001", "$", "%", "#", "//", "}", "cafe\u0301", "\u212b", "\u2126x", "e\u0301\u0323"}
 var stringPool = []string{"", "a", "hello", "a b", "x\"y", "back\\slash", "new\nline", "cr\r", "tab\t", "${", "%{", "$${x}", "%%{", "$", "%", "$$", "%%", "é", "日本", "a${b", "𝄞", "\u0001", "\u007f", " ", "\ufeff", "}", "{", "#", "//", "/*", "'", "\\n", "\\u0041", "${a}", "%{ if x }"}
